@@ -460,7 +460,11 @@ def format_items(ctx):
 # (C) sorting through the interpreter
 
 def keys_pattern(rng, n):
-    p = rng.randrange(6)
+    p = rng.randrange(8)
+    if p == 6:
+        return [(n - i) // 3 for i in range(n)]             # weakly descending: ties inside a descending stretch
+    if p == 7:
+        return [(i // 2) if (i // 5) % 2 == 0 else n - i // 2 for i in range(n)]
     if p == 0:
         return list(range(n))
     if p == 1:
@@ -581,18 +585,18 @@ def lane_shards(ctx):
     seed = str(ctx.seed)
     shards = []
     if ctx.tier == "quick":
-        miri_sort = [(0, 8, None), (9, 10, None), (11, 12, None)] + [(n, n, p) for n in (21, 24, 33) for p in range(6)]
+        miri_sort = [(0, 8, None), (9, 10, None), (11, 12, None)] + [(n, n, p) for n in (21, 33) for p in range(8)]
         miri_heap = [(0, 9)]
         asan = [("sort", 0, 64, "40"), ("sort", 200, 203, "30"), ("sort", 1000, 1000, "12"), ("sort", 2000, 2000, "8"), ("heap", 0, 40, "")]
     else:
-        miri_sort = [(0, 8, None), (9, 10, None), (11, 12, None)] + [(n, n, p) for n in range(13, 49) for p in range(6)]
+        miri_sort = [(0, 8, None), (9, 10, None), (11, 12, None)] + [(n, n, p) for n in range(13, 49) for p in range(8)]
         miri_heap = [(0, 9), (10, 12), (13, 14)]
         asan = [("sort", 0, 128, "60"), ("sort", 129, 260, "30"), ("sort", 500, 520, "20"), ("sort", 1000, 1010, "12"), ("sort", 2000, 2004, "10"), ("heap", 0, 64, "")]
     for lo, hi, p in miri_sort:
         shards.append(("miri", ["sort", str(lo), str(hi), seed, "18446744073709551615"] + ([str(p)] if p is not None else [])))
     if ctx.tier != "quick":
         for n in (64, 100, 150, 200):
-            for p in range(6):
+            for p in range(8):
                 shards.append(("miri", ["sort", str(n), str(n), seed, "40", str(p)]))
     for lo, hi in miri_heap:
         shards.append(("miri", ["heap", str(lo), str(hi), seed]))
